@@ -164,14 +164,14 @@ def summarize(tr):
     }
 
 
-def run_family(ctx, family, oracles, n_quick, n_thorough, name=None, nontrivial=None, post=None):
+def run_family(ctx, family, oracles, n_quick, n_thorough, name=None, nontrivial=None, post=None, salt=""):
     """generate scenarios of a family, run them on the REAL endpoints, evaluate the oracles on each trace"""
     ok, out = cargo_build("vh-e2e")
     if not ok:
         ctx.oblige("build", "vh-e2e builds against /repo's working tree", False, out)
         return []
     n = tier_n(ctx, n_quick, n_thorough)
-    rng = ctx.rng("e2e/" + family)
+    rng = ctx.rng("e2e/" + family + salt)     # `salt`: an independent scenario sample of the same family
     scen = [FAMILIES[family](rng, i) for i in range(n)]
     traces = e2e.run_many(scen)
     fails = []
